@@ -24,6 +24,8 @@ git -C /repo apply "$out/patch.diff" || { echo "patch does not apply to /repo"; 
 unset CARGO_TARGET_DIR
 check_out=$(cd /verif && timeout 3000 python3 bin/check "$prop" --tier quick 2>&1 | grep -E "VIOLATION|violation|OK \(|KNOWN" | cut -c1-300 | head -12)
 git -C /repo checkout -- . && ( cd /verif/harness && CARGO_TARGET_DIR=/verif/harness/target cargo build --offline >/dev/null 2>&1 )
+# the run above rewrote the evidence file from a modified tree: put the committed one back
+git -C /verif checkout -- evidence/$prop.json 2>/dev/null; rm -f /verif/evidence/replays/$prop-*.json
 ( cd /verif && python3 - <<PY
 import sys; sys.path.insert(0,'bin')
 from lib import translate
